@@ -1034,7 +1034,7 @@ func (m *RedisMessage) AsXRead() (ret map[string][]XRangeEntry, err error) {
 	}
 	if m.IsMap() {
 		ret = make(map[string][]XRangeEntry, len(m.values())/2)
-		for i := 0; i < len(m.values()); i += 2 {
+		for i := 0; i+1 < len(m.values()); i += 2 {
 			if ret[m.values()[i].string()], err = m.values()[i+1].AsXRange(); err != nil {
 				return nil, err
 			}
@@ -1131,7 +1131,7 @@ func (m *RedisMessage) AsXReadSlices() (map[string][]XRangeSlice, error) {
 	var err error
 	if m.IsMap() {
 		ret = make(map[string][]XRangeSlice, len(m.values())/2)
-		for i := 0; i < len(m.values()); i += 2 {
+		for i := 0; i+1 < len(m.values()); i += 2 {
 			if ret[m.values()[i].string()], err = m.values()[i+1].AsXRangeSlices(); err != nil {
 				return nil, err
 			}
@@ -1527,7 +1527,7 @@ func (m *RedisMessage) ToAny() (any, error) {
 		return m.intlen, nil
 	case typeMap:
 		vs := make(map[string]any, len(m.values())/2)
-		for i := 0; i < len(m.values()); i += 2 {
+		for i := 0; i+1 < len(m.values()); i += 2 {
 			if v, err := m.values()[i+1].ToAny(); err != nil && !IsRedisNil(err) {
 				vs[m.values()[i].string()] = err
 			} else {
@@ -1609,7 +1609,7 @@ func (m *RedisMessage) setExpireAt(pttl int64) {
 
 func toMap(values []RedisMessage) (map[string]RedisMessage, error) {
 	r := make(map[string]RedisMessage, len(values)/2)
-	for i := 0; i < len(values); i += 2 {
+	for i := 0; i+1 < len(values); i += 2 {
 		if values[i].typ == typeBlobString || values[i].typ == typeSimpleString {
 			r[values[i].string()] = values[i+1]
 			continue
